@@ -83,6 +83,9 @@ func (vc *FnVC) generate() {
 			vc.emit(t)
 		}
 		for _, cl := range vc.fc.Assuming {
+			if !vc.clauseApplies(cl) {
+				continue
+			}
 			vc.enc.usedAssumptions["scope of the proof of "+vc.shortName()+": "+cl.Src] = true
 			vc.emit(vc.trBool(cl.E, env))
 		}
@@ -746,6 +749,9 @@ func (vc *FnVC) doReturn(x *ssa.Return, st *State) {
 		}
 	}
 	for i, cl := range vc.fc.Ensures {
+		if !vc.clauseApplies(cl) {
+			continue
+		}
 		tags := cl.Tags
 		if len(tags) == 0 {
 			tags = vc.fnTags()
@@ -763,7 +769,8 @@ func (vc *FnVC) doReturn(x *ssa.Return, st *State) {
 			if pt.label != "" {
 				dd = d + "." + pt.label
 			}
-			vc.oblige("post", dd, t, tags, cl.Src)
+			ob := vc.oblige("post", dd, t, tags, cl.Src)
+			ob.PartExpr = pt.e
 		}
 	}
 	vc.smoke(fmt.Sprintf("return@b%d", vc.curBlock.Index))
